@@ -121,7 +121,8 @@ htk_write_header (SF_PRIVATE *psf, int calc_length)
 	else
 		sample_count = 0 ;
 
-	sample_period = 10000000 / psf->sf.samplerate ;
+	/* A file that failed to open read/write gets here from htk_close with no sample rate. */
+	sample_period = (psf->sf.samplerate > 0) ? 10000000 / psf->sf.samplerate : 0 ;
 
 	psf_binheader_writef (psf, "E444", BHW4 (sample_count), BHW4 (sample_period), BHW4 (0x20000)) ;
 
